@@ -203,7 +203,44 @@ fn pick_kind(r: &mut Rng, mix: Mix) -> u64 {
     }
 }
 
-fn gen_msg(r: &mut Rng, p: &Pools, m: &Model, c: usize, mix: Mix) -> Message {
+/// A short-lived focus: for a dozen steps most operations concern the same service / channel /
+/// listener and the same two or three connections, so that state-dependent sequences (subscribe,
+/// unsubscribe, emit; call, abort, reply; claim, send, grant, close; filters, start, stop) actually
+/// happen on ONE entity instead of being spread thinly over the pools.
+#[derive(Clone, Default)]
+struct Focus {
+    conns: Vec<usize>,
+    svc: Option<Uuid>,
+    chan: Option<Uuid>,
+    lis: Option<Uuid>,
+    ttl: u32,
+}
+
+/// minimal negotiated minor version a connection needs to send this kind (else the broker closes it)
+fn gated_min(m: &Message) -> u32 {
+    match m {
+        Message::CallFunction2(_) => 19,
+        Message::AbortFunctionCall(_) => 16,
+        Message::RegisterIntrospection(_) | Message::QueryIntrospection(_) | Message::CreateService2(_) | Message::QueryServiceInfo(_) => 17,
+        Message::SubscribeService(_) | Message::UnsubscribeService(_) | Message::SubscribeAllEvents(_) | Message::UnsubscribeAllEvents(_) => 18,
+        _ => 14,
+    }
+}
+
+/// state-aware wrapper: most of the time a connection does not send what would get it closed for
+/// its version (10% of such messages are kept: they test the gates)
+fn gen_msg(r: &mut Rng, p: &Pools, m: &Model, c: usize, mix: Mix, focus: &Focus) -> Message {
+    let ver = m.conns.get(&c).map(|x| x.ver).unwrap_or(20);
+    for _ in 0..6 {
+        let msg = gen_msg_raw(r, p, m, c, mix, focus);
+        if gated_min(&msg) <= ver || r.chance(1, 10) {
+            return msg;
+        }
+    }
+    gen_msg_raw(r, p, m, c, mix, focus)
+}
+
+fn gen_msg_raw(r: &mut Rng, p: &Pools, m: &Model, c: usize, mix: Mix, focus: &Focus) -> Message {
     let serial = r.below(3) as u32;
     let live_o: Vec<Uuid> = m.objs.values().map(|o| o.cookie).collect();
     let own_o: Vec<Uuid> = m.objs.values().filter(|o| o.owner == c).map(|o| o.cookie).collect();
@@ -231,9 +268,18 @@ fn gen_msg(r: &mut Rng, p: &Pools, m: &Model, c: usize, mix: Mix) -> Message {
         }
     };
     let oc = |r: &mut Rng| ObjectCookie(choose(r, &own_o, &live_o, &p.obj_cookies, 900));
-    let sc = |r: &mut Rng| ServiceCookie(choose(r, &own_s, &live_s, &p.svc_cookies, 800));
-    let cc = |r: &mut Rng| ChannelCookie(choose(r, &live_c, &live_c, &p.chan_cookies, 700));
-    let lc = |r: &mut Rng| BusListenerCookie(choose(r, &own_l, &live_l, &p.lis_cookies, 600));
+    let sc = |r: &mut Rng| match focus.svc {
+        Some(k) if r.chance(3, 4) => ServiceCookie(k),
+        _ => ServiceCookie(choose(r, &own_s, &live_s, &p.svc_cookies, 800)),
+    };
+    let cc = |r: &mut Rng| match focus.chan {
+        Some(k) if r.chance(3, 4) => ChannelCookie(k),
+        _ => ChannelCookie(choose(r, &live_c, &live_c, &p.chan_cookies, 700)),
+    };
+    let lc = |r: &mut Rng| match focus.lis {
+        Some(k) if r.chance(3, 4) => BusListenerCookie(k),
+        _ => BusListenerCookie(choose(r, &own_l, &live_l, &p.lis_cookies, 600)),
+    };
     let my_bserials: Vec<u32> = m
         .calls
         .iter()
@@ -264,8 +310,8 @@ fn gen_msg(r: &mut Rng, p: &Pools, m: &Model, c: usize, mix: Mix) -> Message {
         4 | 5 => CreateService { serial, object_cookie: oc(r), uuid: ServiceUuid(*r.pick(&p.svc_uuids)), version: r.below(3) as u32 }.into(),
         6 | 7 => {
             let mut info = ServiceInfo::new(r.below(3) as u32);
-            if r.below(2) == 0 {
-                info = info.set_subscribe_all(r.below(3) != 0);
+            if r.below(3) != 0 {
+                info = info.set_subscribe_all(r.below(4) != 0);
             }
             let value = if r.below(10) == 0 { val(r) } else { SerializedValue::serialize(info).unwrap() };
             CreateService2 { serial, object_cookie: oc(r), uuid: ServiceUuid(*r.pick(&p.svc_uuids)), value }.into()
@@ -297,14 +343,14 @@ fn gen_msg(r: &mut Rng, p: &Pools, m: &Model, c: usize, mix: Mix) -> Message {
             CallFunctionReply { serial: s, result }.into()
         }
         17 => AbortFunctionCall { serial }.into(),
-        18 | 19 => SubscribeEvent { serial: if r.below(12) == 0 { None } else { Some(serial) }, service_cookie: sc(r), event: ev(r) }.into(),
+        18 | 19 => SubscribeEvent { serial: if r.below(40) == 0 { None } else { Some(serial) }, service_cookie: sc(r), event: ev(r) }.into(),
         20 => UnsubscribeEvent { service_cookie: sc(r), event: ev(r) }.into(),
         21 | 22 => EmitEvent { service_cookie: sc(r), event: ev(r), value: val(r) }.into(),
         23 => QueryServiceVersion { serial, cookie: sc(r) }.into(),
         24 => QueryServiceInfo { serial, cookie: sc(r) }.into(),
         25 => SubscribeService { serial, service_cookie: sc(r) }.into(),
         26 => UnsubscribeService { service_cookie: sc(r) }.into(),
-        27 | 28 => SubscribeAllEvents { serial: if r.below(12) == 0 { None } else { Some(serial) }, service_cookie: sc(r) }.into(),
+        27 | 28 => SubscribeAllEvents { serial: if r.below(40) == 0 { None } else { Some(serial) }, service_cookie: sc(r) }.into(),
         29 => UnsubscribeAllEvents { serial: if r.below(3) == 0 { None } else { Some(serial) }, service_cookie: sc(r) }.into(),
         30 | 31 => CreateChannel { serial, end: endc(r) }.into(),
         32 | 33 => ClaimChannelEnd { serial, cookie: cc(r), end: endc(r) }.into(),
@@ -343,6 +389,90 @@ struct Hist {
 
 fn kind_of(text: &str) -> &str {
     text.split(' ').next().unwrap_or("")
+}
+
+/// one ordinary step: connection `c` sends `msg`, the system runs to quiescence, everything every
+/// client received is recorded together with the fresh cookie / broker serial the implementation chose
+#[allow(clippy::too_many_arguments)]
+fn step_message(h: &mut Hist, w: &mut World, m: &mut Model, ids: &mut Ids, p: &mut Pools, tracker_ok: &mut bool,
+                c: usize, msg: Message, step: usize) -> Result<(), String> {
+    let text = fmt_msg(&msg, ids);
+    *h.kinds.entry(format!("in:{}", kind_of(&text))).or_default() += 1;
+    h.pending = format!("MSG {} 0 - {}", c, text);
+    if !send(w.clients[c].as_mut().unwrap(), msg.clone()) {
+        return Err(format!("step {step}: could not send on live client {c}"));
+    }
+    w.settle();
+    let mut o = vec![];
+    let mut cl = vec![];
+    for j in 0..w.clients.len() {
+        let (x, closed) = w.drain(j);
+        if closed {
+            cl.push(j);
+        }
+        o.push(x);
+    }
+    let mut fresh = None;
+    for x in &o[c] {
+        match x {
+            Message::CreateObjectReply(CreateObjectReply { result: CreateObjectResult::Ok(k), .. }) => {
+                fresh = Some(k.0);
+                p.obj_cookies.push(k.0);
+            }
+            Message::CreateServiceReply(CreateServiceReply { result: CreateServiceResult::Ok(k), .. }) => {
+                fresh = Some(k.0);
+                p.svc_cookies.push(k.0);
+            }
+            Message::CreateChannelReply(CreateChannelReply { cookie, .. }) => {
+                fresh = Some(cookie.0);
+                p.chan_cookies.push(cookie.0);
+            }
+            Message::CreateBusListenerReply(CreateBusListenerReply { cookie, .. }) => {
+                fresh = Some(cookie.0);
+                p.lis_cookies.push(cookie.0);
+            }
+            _ => {}
+        }
+    }
+    let mut bser = None;
+    for x in o.iter().flatten() {
+        match x {
+            Message::CallFunction(cf) => {
+                p.bserials.push(cf.serial);
+                bser = Some(cf.serial);
+            }
+            Message::CallFunction2(cf) => {
+                p.bserials.push(cf.serial);
+                bser = Some(cf.serial);
+            }
+            _ => {}
+        }
+    }
+    if *tracker_ok && catch_unwind(AssertUnwindSafe(|| m.message(c, msg, fresh))).is_err() {
+        *tracker_ok = false;
+    }
+    let fid = fresh.map(|f| ids.id(f)).unwrap_or(900_000 + step as u64);
+    let bs = bser.map(|b| b.to_string()).unwrap_or_else(|| "-".into());
+    // emit
+    writeln!(h.out, "EV MSG {} {} {} {}", c, fid, bs, text).unwrap();
+    for (j, oj) in o.iter().enumerate() {
+        for x in oj {
+            let t = fmt_msg(x, ids);
+            *h.kinds.entry(format!("out:{}", kind_of(&t))).or_default() += 1;
+            writeln!(h.out, "OUT {} {}", j, t).unwrap();
+        }
+    }
+    for c in &cl {
+        writeln!(h.out, "CLOSED {}", c).unwrap();
+    }
+    match w.stats() {
+        Some(s) => writeln!(h.out, "STATS {} {} {} {} {}", s[0], s[1], s[2], s[3], s[4]).unwrap(),
+        None => writeln!(h.out, "STATS -").unwrap(),
+    }
+    writeln!(h.out, "EXIT {}", if w.btask.is_none() { 1 } else { 0 }).unwrap();
+    writeln!(h.out, "END").unwrap();
+    h.steps += 1;
+    Ok(())
 }
 
 fn run_history(seed: u64, len: usize, mix: Mix, h: &mut Hist) -> Result<(), String> {
@@ -408,7 +538,43 @@ fn run_history(seed: u64, len: usize, mix: Mix, h: &mut Hist) -> Result<(), Stri
         let (o, c) = drain_all(&mut w);
         emit(h, &mut w, &mut ids, format!("NEW {} {}", i, v.min(20)), &o, &c);
     }
+    // bootstrap: a few objects and services (with subscribe-all support), a channel and a listener
+    // exist from the start, so that the focused phases have something to work on
+    let mut boot = 100_000usize;
+    if mix != Mix::Abuse || r.chance(1, 2) {
+        let nboot = r.range(1, 2) as usize;
+        for i in 0..nboot.min(w.clients.len()) {
+            let ou = p.obj_uuids[i % 3];
+            boot += 1;
+            step_message(h, &mut w, &mut m, &mut ids, &mut p, &mut tracker_ok, i, CreateObject { serial: 0, uuid: ObjectUuid(ou) }.into(), boot)?;
+            if let Some(oc) = p.obj_cookies.last().cloned() {
+                for j in 0..r.range(1, 2) as usize {
+                    let ver = m.conns.get(&i).map(|x| x.ver).unwrap_or(14);
+                    let su = ServiceUuid(p.svc_uuids[(i + j) % 3]);
+                    boot += 1;
+                    let msg: Message = if ver >= 17 {
+                        let info = ServiceInfo::new(1).set_subscribe_all(true);
+                        CreateService2 { serial: 1, object_cookie: ObjectCookie(oc), uuid: su, value: SerializedValue::serialize(info).unwrap() }.into()
+                    } else {
+                        CreateService { serial: 1, object_cookie: ObjectCookie(oc), uuid: su, version: 1 }.into()
+                    };
+                    step_message(h, &mut w, &mut m, &mut ids, &mut p, &mut tracker_ok, i, msg, boot)?;
+                }
+            }
+        }
+        if matches!(mix, Mix::Channels | Mix::All) {
+            boot += 1;
+            let e = if r.chance(1, 2) { ChannelEndWithCapacity::Sender } else { ChannelEndWithCapacity::Receiver([1u32, 4, 5, 6, 20][r.below(5) as usize]) };
+            step_message(h, &mut w, &mut m, &mut ids, &mut p, &mut tracker_ok, 0, CreateChannel { serial: 2, end: e }.into(), boot)?;
+        }
+        if matches!(mix, Mix::Listeners | Mix::All) {
+            boot += 1;
+            let lc = 1.min(w.clients.len() - 1);
+            step_message(h, &mut w, &mut m, &mut ids, &mut p, &mut tracker_ok, lc, CreateBusListener { serial: 3 }.into(), boot)?;
+        }
+    }
     let mut dropped: Vec<usize> = vec![];
+    let mut focus = Focus::default();
     let mut step = 0usize;
     let mut shutdown_idle_sent = false;
     while step < len {
@@ -417,7 +583,43 @@ fn run_history(seed: u64, len: usize, mix: Mix, h: &mut Hist) -> Result<(), Stri
         if alive.is_empty() || w.btask.is_none() {
             break;
         }
-        let c = *r.pick(&alive);
+        // (re)focus every dozen steps on one live service / channel / listener and a few connections
+        if focus.ttl == 0 {
+            focus = Focus::default();
+            focus.ttl = r.range(6, 16) as u32;
+            if r.chance(4, 5) {
+                let k = r.range(2, 3) as usize;
+                for _ in 0..k {
+                    focus.conns.push(*r.pick(&alive));
+                }
+                let svcs: Vec<Uuid> = m.svcs.values().map(|s| s.cookie).collect();
+                let chans: Vec<Uuid> = m.chans.keys().cloned().collect();
+                let liss: Vec<Uuid> = m.lis.keys().cloned().collect();
+                if !svcs.is_empty() {
+                    let k = *r.pick(&svcs);
+                    focus.svc = Some(k);
+                    // the owner takes part
+                    if let Some((key, _)) = m.svcs.iter().find(|(_, s)| s.cookie == k) {
+                        if let Some(o) = m.objs.get(&key.0) {
+                            focus.conns.push(o.owner);
+                        }
+                    }
+                }
+                if !chans.is_empty() {
+                    focus.chan = Some(*r.pick(&chans));
+                }
+                if !liss.is_empty() {
+                    let k = *r.pick(&liss);
+                    focus.lis = Some(k);
+                    if let Some(l) = m.lis.get(&k) {
+                        focus.conns.push(l.owner);
+                    }
+                }
+            }
+        }
+        focus.ttl -= 1;
+        let fc: Vec<usize> = focus.conns.iter().cloned().filter(|x| alive.contains(x)).collect();
+        let c = if !fc.is_empty() && r.chance(3, 4) { *r.pick(&fc) } else { *r.pick(&alive) };
         let roll = r.below(400);
         h.pending = format!("SHUT {}", c);
         if roll < 2 {
@@ -448,7 +650,7 @@ fn run_history(seed: u64, len: usize, mix: Mix, h: &mut Hist) -> Result<(), Stri
             emit(h, &mut w, &mut ids, format!("DROP {}", c), &o, &cl);
         } else if roll < 10 {
             // the request is forwarded into the broker queue, then the task is dropped
-            let msg = gen_msg(&mut r, &p, &m, c, mix);
+            let msg = gen_msg(&mut r, &p, &m, c, mix, &focus);
             let text = fmt_msg(&msg, &mut ids);
             *h.kinds.entry(format!("in:{}", kind_of(&text))).or_default() += 1;
             h.pending = format!("MSG {} 0 - {}", c, text);
@@ -505,57 +707,18 @@ fn run_history(seed: u64, len: usize, mix: Mix, h: &mut Hist) -> Result<(), Stri
             let (o, cl) = drain_all(&mut w);
             emit(h, &mut w, &mut ids, format!("NEW {} {}", i, v), &o, &cl);
         } else {
-            let msg = gen_msg(&mut r, &p, &m, c, mix);
-            let text = fmt_msg(&msg, &mut ids);
-            *h.kinds.entry(format!("in:{}", kind_of(&text))).or_default() += 1;
-            h.pending = format!("MSG {} 0 - {}", c, text);
-            if !send(w.clients[c].as_mut().unwrap(), msg.clone()) {
-                return Err(format!("step {step}: could not send on live client {c}"));
-            }
-            w.settle();
-            let (o, cl) = drain_all(&mut w);
-            let mut fresh = None;
-            for x in &o[c] {
-                match x {
-                    Message::CreateObjectReply(CreateObjectReply { result: CreateObjectResult::Ok(k), .. }) => {
-                        fresh = Some(k.0);
-                        p.obj_cookies.push(k.0);
+            let msg = gen_msg(&mut r, &p, &m, c, mix, &focus);
+            // an emitted event is only forwarded when it comes from the owner: mostly send it from there
+            let mut c = c;
+            if let Message::EmitEvent(e) = &msg {
+                let owner = m.svcs.iter().find(|(_, s)| s.cookie == e.service_cookie.0).and_then(|(k, _)| m.objs.get(&k.0)).map(|o| o.owner);
+                if let Some(ow) = owner {
+                    if alive.contains(&ow) && r.chance(4, 5) {
+                        c = ow;
                     }
-                    Message::CreateServiceReply(CreateServiceReply { result: CreateServiceResult::Ok(k), .. }) => {
-                        fresh = Some(k.0);
-                        p.svc_cookies.push(k.0);
-                    }
-                    Message::CreateChannelReply(CreateChannelReply { cookie, .. }) => {
-                        fresh = Some(cookie.0);
-                        p.chan_cookies.push(cookie.0);
-                    }
-                    Message::CreateBusListenerReply(CreateBusListenerReply { cookie, .. }) => {
-                        fresh = Some(cookie.0);
-                        p.lis_cookies.push(cookie.0);
-                    }
-                    _ => {}
                 }
             }
-            let mut bser = None;
-            for x in o.iter().flatten() {
-                match x {
-                    Message::CallFunction(cf) => {
-                        p.bserials.push(cf.serial);
-                        bser = Some(cf.serial);
-                    }
-                    Message::CallFunction2(cf) => {
-                        p.bserials.push(cf.serial);
-                        bser = Some(cf.serial);
-                    }
-                    _ => {}
-                }
-            }
-            if tracker_ok && catch_unwind(AssertUnwindSafe(|| m.message(c, msg, fresh))).is_err() {
-                tracker_ok = false;
-            }
-            let fid = fresh.map(|f| ids.id(f)).unwrap_or(900_000 + step as u64);
-            let bs = bser.map(|b| b.to_string()).unwrap_or_else(|| "-".into());
-            emit(h, &mut w, &mut ids, format!("MSG {} {} {} {}", c, fid, bs, text), &o, &cl);
+            step_message(h, &mut w, &mut m, &mut ids, &mut p, &mut tracker_ok, c, msg, step)?;
         }
         if !tracker_ok {
             // the tracker lost sync (it is only a generator aid): stop this history
